@@ -7,7 +7,7 @@ import numpy as np
 from engine import bind
 from specs import basisfn, coulomb
 
-from .common import Frame, cart_components, make_shell, tag
+from .common import Frame, Seen, cart_components, make_shell, tag
 from .overlap import spec_of_shell
 
 
@@ -140,7 +140,7 @@ class PointChargeBlock:
             M.raises("pc_block/rejects/count", lambda: f(s1, s2, pts, M.vec("q2", N + 1)), ValueError)
             M.raises("pc_block/rejects/points-dtype", lambda: f(s1, s2, np.array([["a", "b", "c"]]), q), TypeError)
             return
-        seen = {}
+        seen = Seen("pc_block/pre@kernel")
 
         def kernel(coords, boys, ca, anga, ea, da, cb, angb, eb, db):
             seen["args"] = (coords, boys, ca, anga, ea, da, cb, angb, eb, db)
@@ -186,15 +186,20 @@ class PointChargeInline:
     def shapes(self, tier):
         lm = 2 if tier == "quick" else 3
         out = [dict(la=la, lb=lb) for la in range(lm + 1) for lb in range(lm + 1) if la + lb <= (3 if tier == "quick" else 5)]
+        # several primitives per shell (what a block-level screen or pruning step would look at)
+        out += [dict(la=0, lb=0, K=[2, 2]), dict(la=1, lb=0, K=[1, 2])]
+        if tier == "thorough":
+            out += [dict(la=0, lb=1, K=[3, 1]), dict(la=1, lb=1, K=[2, 2])]
         return out
 
     def run(self, shape, M):
         pc = M.mods["gbasis.integrals.point_charge"]
         la, lb = shape["la"], shape["lb"]
-        A, B, ea, eb, P = two_centres(M, 1, 1)
-        C = M.array(np.array([P - M.vec("W", 3)], dtype=object))
+        Ka, Kb = shape.get("K", [1, 1])
+        A, B, ea, eb, P = two_centres(M, Ka, Kb)
+        C = M.array(np.array([P - M.vec("W", 3)], dtype=object)) if P is not None else M.vec("R", (1, 3))
         q = M.vec("q", 1)
-        s1, s2 = _real_shell(M, "p", la, 1, 1, A, ea), _real_shell(M, "q", lb, 1, 1, B, eb)
+        s1, s2 = _real_shell(M, "p", la, Ka, 1, A, ea), _real_shell(M, "q", lb, Kb, 1, B, eb)
         boys = boys_stub(M)
         with bind.patched((pc.PointChargeIntegral, "boys_func", staticmethod(boys))):
             out12 = pc.PointChargeIntegral.construct_array_contraction(s1, s2, C, q)
@@ -202,8 +207,8 @@ class PointChargeInline:
         sa, sb = spec_of_shell(M, s1), spec_of_shell(M, s2)
         SF = M.SF
         sC, sq = M.to_spec(C), M.to_spec(q)
-        f = coulomb.one_electron(SF, sa.exps[0], sb.exps[0], list(sa.coord), list(sb.coord), list(sC[0]))
-        spec = basisfn.contracted_block(SF, sa, sb, lambda pa, pb, ca, cb: f(ca, cb))
+        fs = {(pa, pb): coulomb.one_electron(SF, sa.exps[pa], sb.exps[pb], list(sa.coord), list(sb.coord), list(sC[0])) for pa in range(Ka) for pb in range(Kb)}
+        spec = basisfn.contracted_block(SF, sa, sb, lambda pa, pb, ca, cb: fs[pa, pb](ca, cb))
         for (m1, i1, m2, i2), v in spec.items():
             M.eq("pc_inline/out" + tag((m1, i1, m2, i2, 0)), out12[m1, i1, m2, i2, 0], -sq[0] * v)
             M.eq("pc_inline/orientation" + tag((m1, i1, m2, i2, 0)), out21[m2, i2, m1, i1, 0], out12[m1, i1, m2, i2, 0])
@@ -369,7 +374,7 @@ class ERIBlock:
                 args[i] = None
                 M.raises("eri_block/rejects/shell%d" % (i + 1), lambda a=args: f(*a), TypeError)
             return
-        seen = {}
+        seen = Seen("eri_block/pre@kernel")
 
         def zero_kernel(boys, *a):
             seen["zero"] = (boys, a)
